@@ -332,6 +332,15 @@ async def execute(gen, ops, w: SockWorld, run: Run, counters=None):
                     obj.max_retries = op[3]
         elif o == "odd_subs":
             w.add_odd_subscribers()
+        elif o == "drop_subs":
+            # an application that listens to one kind of event only (or, for a while, to none)
+            if op[1] in ("conn", "both"):
+                w.sock.unsubscribe_on_connection_changed(w._on_conn)
+            if op[1] in ("msg", "both"):
+                w.sock.unsubcribe_on_message_received(w._on_msg)
+            had = getattr(w, "dropped_subs", None)
+            w.dropped_subs = op[1] if had in (None, op[1]) else "both"
+            log.add("SCRIPT.drop_subs", which=op[1])
         elif o == "sync_raise":
             w.add_sync_raising_subscribers(op[1])
         elif o == "on_disconnect_open":
